@@ -32,6 +32,8 @@ func checkC10(c *Ctx) {
 	c.checkOnlineCountedWithAttach()
 	c.checkIntersectionPairsAreGenerations("C10.7-intersections-pair-generations")
 	c.checkCompoundCommandsComparedByHead()
+	c.checkOnlineKeyedBySubscribedUser()
+	c.checkEnabledComesFromEnCommand()
 	// of the module-wide intersection census only the predicates presence depends on (P, R, and J for
 	// "upd")
 	c.R.Scoped(func(rule, construct string) bool {
